@@ -43,10 +43,12 @@ class _Watch:
     def __init__(self, struct, who):
         self.rec = []
         self.who = who
+        self.n = 0
         orig = struct.replace_status_block_segment
 
         def wrapped(offset, segment):
-            self.rec.append({"by": who(), "pos": offset, "data": list(segment)})
+            self.n += 1
+            self.rec.append({"by": who(), "pos": offset, "data": list(segment), "n": self.n})
             return orig(offset, segment)
 
         struct.replace_status_block_segment = wrapped
@@ -188,6 +190,109 @@ def _history_async(rng, n_msgs, rank, p_msg=0.62):
                 ev.append(msg)
             ev.append({"k": "got", "off": off, "len": ln, "ok": bool(ok)})
 
+        def do_msg_before_final(off, ln):
+            """a reported change INSIDE the range of an outstanding refresh reaches the client just before the
+            refresh's final segment: in arrival order the refresh comes last, so its (earlier fetched) bytes stand;
+            events are logged in arrival order and carry the sequence numbers of their installs"""
+            settle()
+            nsent, ntap = len(tr.sent), len(tap.log)
+            nseg = -(-ln // 39)
+            pos = off + rng.randrange(0, ln - 1)
+            cur = sim_struct.status_block[pos:pos + 2]
+            ch = [(pos, bytes([(cur[0] + 1 + rng.randrange(255)) % 256, cur[1]]))]
+            st_ = {"n": 0, "done": False, "fetch": None}
+            saved = (s.net.s2c, s.net.on_event)
+
+            def s2c(reply, now, n):
+                if b"STATV" in reply:
+                    if st_["fetch"] is None:
+                        st_["fetch"] = list(sim_struct.status_block[off:off + nseg * 39])
+                    st_["n"] += 1
+                    return [s.net.latency + 0.004 * st_["n"]]
+                return None
+
+            def on_ev(kind, data, transport):
+                if saved[1]:
+                    saved[1](kind, data, transport)
+                c = inner(data) or b""
+                if kind == "deliver" and transport is tr and c[:5] == b"STATV" and c[5] == nseg - 2 and not st_["done"]:
+                    st_["done"] = True
+                    for p_, d_ in ch:
+                        sim_struct.replace_status_block_segment(p_, d_)
+                    s.inject(s.peer.push_changes(s.client_parms(), ch), delay=0.001)
+
+            s.net.s2c, s.net.on_event = s2c, on_ev
+            try:
+                ok = s.run(spa.struct.get(
+                    spa._protocol,
+                    lambda: GeckoStatusBlockProtocolHandler.request(
+                        spa._protocol.get_and_increment_sequence_counter(False), off, ln, parms=spa.sendparms)))
+            finally:
+                s.net.s2c, s.net.on_event = saved
+            if not st_["done"]:
+                raise env.MachineryError("the segment before the final one was never delivered")
+            for _ in range(40):
+                if any(e["k"] == "pop" and "Partial" in e["by"] for e in tap.log[ntap:]):
+                    break
+                s.advance(0.1)
+            s.advance(0.05)
+            inst = w.take()
+            part = [x for x in inst if "Partial" in x["by"]]
+            refr = [x for x in inst if "Partial" not in x["by"]]
+            ev.append({"k": "fetch", "off": off, "data": st_["fetch"]})
+            ev.append({"k": "msg", "ch": [{"pos": p_, "data": list(d_)} for p_, d_ in ch],
+                       "applied": [{"pos": x["pos"], "data": x["data"]} for x in part],
+                       "acks": _acks(d for (_, d, _) in tr.sent[nsent:]), "before_final_segment": True,
+                       "n": part[0]["n"] if part else 0, "queue": []})
+            for x in refr:
+                ev.append({"k": "refresh", "off": x["pos"], "data": x["data"], "n": x["n"]})
+            ev.append({"k": "got", "off": off, "len": ln, "ok": bool(ok), "raced": True})
+
+        def do_msg_before_ping(delta):
+            """a reported change reaches the client `delta` seconds before the ping loop's next request"""
+            settle()
+            def pings():
+                return [t for (t, d, _), by in zip(tr.sent, tr.sent_by) if by == "SPA:Ping loop"]
+            t0 = s.loop.time()
+            while len(pings()) < 2 and s.loop.time() - t0 < 400:
+                s.advance(1.0)
+            ps_ = pings()
+            if len(ps_) < 2:
+                raise env.MachineryError("no two pings observed")
+            from geckolib.config import GeckoConfig as _GC
+            period = ps_[-1] - ps_[-2]
+            if period < 0.9 * _GC.PING_FREQUENCY_IN_SECONDS:
+                period = _GC.PING_FREQUENCY_IN_SECONDS + 0.1      # (the first pings of a connection are irregular)
+            target = ps_[-1] + period - delta
+            while target <= s.loop.time() + 0.3:
+                target += period
+            s.advance(target - s.loop.time())
+            nsent, ntap = len(tr.sent), len(tap.log)
+            lim = max(4, spa.log_class.begin - 2)
+            ch = [(rng.randrange(0, lim), bytes([rng.randrange(256), rng.randrange(256)]))]
+            sim_struct.replace_status_block_segment(*ch[0])
+            s.inject(s.peer.push_changes(s.client_parms(), ch))
+            for _ in range(60):
+                if any(e["k"] == "pop" and "Partial" in e["by"] for e in tap.log[ntap:]):
+                    break
+                s.advance(0.1)
+            s.advance(0.3)
+            inst = w.take()
+            applied = [{"pos": x["pos"], "data": x["data"]} for x in inst if "Partial" in x["by"]]
+            placed = False
+            hit = any(target - 0.001 <= t <= target + delta + 0.25 for t in pings())
+            msg = {"k": "msg", "ch": [{"pos": p_, "data": list(d_)} for p_, d_ in ch], "applied": applied,
+                   "acks": _acks(d for (_, d, _) in tr.sent[nsent:]), "before_ping": delta, "ping_followed": hit, "queue": []}
+            for x in inst:
+                if "Partial" in x["by"]:
+                    if not placed:
+                        ev.append(msg)
+                        placed = True
+                else:
+                    ev.append({"k": "refresh", "off": x["pos"], "data": x["data"]})
+            if not placed:
+                ev.append(msg)
+
         def do_burst(K):
             """K one-record messages back to back (faster than the consumers drain the receive queue); positions lie
             below the log section, which is all that the periodic refresh fetches"""
@@ -230,6 +335,12 @@ def _history_async(rng, n_msgs, rank, p_msg=0.62):
             r = rng.random()
             if i == 8:
                 do_burst(rng.choice([36, 48]))
+            elif i in (14, 21):
+                ln = rng.choice([78, 117])
+                do_msg_before_final(rng.randrange(0, max(1, spa.log_class.begin - ln - 39)), ln)
+            elif i == 17:
+                for delta in (0.05, 0.12, 0.19, 0.02):
+                    do_msg_before_ping(delta)
             elif i in (5, 11) or r > 0.97:
                 ln = rng.choice([40, 78, 100, 200])
                 off = rng.randrange(0, 1024 - ln)
@@ -396,6 +507,10 @@ def run(ctx):
                               {"history_index": logs.index(lg), "matched": k, "of": len(lg["ev"]),
                                "event": {kk: vv for kk, vv in e.items() if kk != "block"},
                                "previous": [{kk: vv for kk, vv in x.items() if kk != "block"} for x in lg["ev"][max(0, k - 2):k]]})
+    ev.cov["statp_just_before_a_ping"] = sum(1 for l in logs for e in l["ev"] if e.get("ping_followed"))
+    ev.cov["statp_before_the_final_segment_of_a_refresh"] = sum(1 for l in logs for e in l["ev"] if e.get("before_final_segment"))
+    if not ev.cov["statp_just_before_a_ping"] and not ctx.new:
+        raise env.MachineryError("no partial update was placed just before a ping")
     ev.cov["evaluations"] += sum(len(l["ev"]) for l in logs)
     ev.cov["distinct_nontrivial"] = len(nontriv)
     ev.cov["rule"] = "distinct STATP change lists delivered to a real client (positions, data), both stacks"
